@@ -44,6 +44,11 @@ func (ex *Exec) visitInstr(fr *Frame, instr ssa.Instruction) continuation {
 		fr.env[instr] = ex.sliceToArrayPointer(fr, instr, fr.get(instr.X))
 
 	case *ssa.MakeInterface:
+		if ni, ok := fr.get(instr.X).(Iface); ok && ni.t == nativeType {
+			// a modelled library object returned by a constructor of concrete type
+			fr.env[instr] = ni
+			break
+		}
 		fr.env[instr] = Iface{t: instr.X.Type(), v: fr.get(instr.X)}
 
 	case *ssa.Extract:
